@@ -8,8 +8,15 @@ package standard
 //
 // Scenario modes:
 //   gated  the steps of a TLC-generated behaviour are executed in their order; every Attest run is
-//          a goroutine that parks on entry to each fake until the step that names it is reached
-//          (several runs overlap on ONE service instance, interleaved at interface-call grain)
+//          a goroutine that parks at the gates of the fakes until the step that names it is reached
+//          (several runs overlap on ONE service instance, interleaved at interface-call grain).
+//          Gates: entry of the data fetch and of the accounts lookup; entry of the signer (before
+//          it has read its request) AND inside it (request read, reply not yet given); entry of
+//          the submitter and inside it.  A run can so be held inside the signer or the submitter
+//          while other runs - other duties - go from start to end on the same instance.  What the
+//          service handed to the signer / submitter is read again when the call returns.
+//          A run that neither reaches a gate nor returns is recorded by the watchdog as Hung (no
+//          action of the specification) and the instance is abandoned.
 //   free   all runs of the scenario start together and run without gates (real interleaving of
 //          the marking loops); the trace specification explains the marking steps itself
 // With "strategy" set, the real best / majority / first attestation-data strategy sits between
@@ -83,6 +90,9 @@ type c01Script struct {
 	sign     *c01Step
 	submit   *c01Step
 }
+
+// c01Patience is how long the watchdog waits for a run to reach its next gate or to return.
+const c01Patience = 15 * time.Second
 
 type c01Run struct {
 	id       int
@@ -190,7 +200,15 @@ type c01Harness struct {
 	mu    sync.Mutex
 	runs  map[int]*c01Run
 	rnd   *rand.Rand
+	dead  bool // (under the trace lock) the watchdog gave the instance up: nothing more is recorded
+	blind bool // (under the trace lock) Service.attested could not be read (attestedMu never came free)
 }
+
+// c01HungBudget: after this many hung scenarios in one batch the remaining scenarios are not run (each
+// would cost the watchdog's patience); they leave a Reset line only.  The hung ones are on record.
+const c01HungBudget = 3
+
+var c01HungSeen int
 
 func (h *c01Harness) run(ctx context.Context) *c01Run {
 	id, _ := ctx.Value(c01RunKey{}).(int)
@@ -201,9 +219,20 @@ func (h *c01Harness) run(ctx context.Context) *c01Run {
 
 // snapshot of Service.attested as sorted [epoch, validator] pairs (called under the trace lock)
 func (h *c01Harness) att() [][2]uint64 {
-	h.s.attestedMu.Lock()
-	defer h.s.attestedMu.Unlock()
 	res := make([][2]uint64, 0)
+	// never wait for ever while holding the trace lock (a leaked attestedMu would wedge the batch);
+	// an unreadable map is recorded as the pair (2^30, 2^30), which no state of the specification has
+	locked := false
+	for i := 0; i < 1000 && !locked && !h.blind; i++ {
+		if locked = h.s.attestedMu.TryLock(); !locked {
+			time.Sleep(500 * time.Microsecond)
+		}
+	}
+	if !locked {
+		h.blind = true
+		return append(res, [2]uint64{1 << 30, 1 << 30})
+	}
+	defer h.s.attestedMu.Unlock()
 	for e, m := range h.s.attested {
 		for v := range m {
 			res = append(res, [2]uint64{uint64(e), uint64(v)})
@@ -220,6 +249,9 @@ func (h *c01Harness) att() [][2]uint64 {
 
 func (h *c01Harness) emit(r *c01Run, ev string, fill func(e verifsupport.Ev)) {
 	h.tr.Locked(func() verifsupport.Ev {
+		if h.dead {
+			return nil
+		}
 		e := verifsupport.Ev{"sc": h.sc, "ev": ev, "run": r.id}
 		fill(e)
 		e["att"] = h.att()
@@ -392,41 +424,59 @@ func (p *c01Signer) SignBeaconAttestations(ctx context.Context, accounts []e2wty
 	p.h.enter(r, "Sign")
 	st := r.script.sign
 	root := c01RootID(blockRoot, sourceRoot, targetRoot)
-	req := make([][2]uint64, 0, len(accounts))
+	// the request as it reads now: (validator of the account, committee index) pairs, sorted
+	read := func() [][2]uint64 {
+		req := make([][2]uint64, 0, len(accounts))
+		for i, a := range accounts {
+			v := uint64(0)
+			if acc, ok := a.(*c01Account); ok {
+				v = acc.idx
+			}
+			c := uint64(1 << 20)
+			if i < len(committeeIndices) {
+				c = uint64(committeeIndices[i])
+			}
+			req = append(req, [2]uint64{v, c})
+		}
+		return req
+	}
+	sorted := func(req [][2]uint64) [][2]uint64 {
+		req = append([][2]uint64{}, req...)
+		sort.Slice(req, func(i, j int) bool { return req[i][0] < req[j][0] || (req[i][0] == req[j][0] && req[i][1] < req[j][1]) })
+		return req
+	}
 	zero := make([]uint64, 0)
 	sigs := make([]phase0.BLSSignature, len(accounts))
 	fail := st != nil && st.Err
-	for i, a := range accounts {
-		v := uint64(0)
-		if acc, ok := a.(*c01Account); ok {
-			v = acc.idx
-		}
-		c := uint64(1 << 20)
-		if i < len(committeeIndices) {
-			c = uint64(committeeIndices[i])
-		}
-		req = append(req, [2]uint64{v, c})
+	req := read()
+	// the signer signs over what it was asked at the time of the call
+	for i, q := range req {
 		isZero := fail
 		if st != nil {
 			for _, z := range st.Zero {
-				if z == v {
+				if z == q[0] {
 					isZero = true
 				}
 			}
 		}
 		if isZero {
-			zero = append(zero, v)
+			zero = append(zero, q[0])
 		} else {
-			sigs[i] = c01Sig(v, c, uint64(slot), uint64(sourceEpoch), uint64(targetEpoch), root)
+			sigs[i] = c01Sig(q[0], q[1], uint64(slot), uint64(sourceEpoch), uint64(targetEpoch), root)
 		}
 	}
-	sort.Slice(req, func(i, j int) bool { return req[i][0] < req[j][0] || (req[i][0] == req[j][0] && req[i][1] < req[j][1]) })
 	sort.Slice(zero, func(i, j int) bool { return zero[i] < zero[j] })
 	p.h.emit(r, "Sign", func(e verifsupport.Ev) {
-		e["err"] = fail
-		e["req"] = req
+		e["req"] = sorted(req)
 		e["data"] = c01DataEv(uint64(slot), uint64(sourceEpoch), uint64(targetEpoch), root)
+	})
+	// inside the signer (a remote signer takes its time)
+	p.h.enter(r, "SignRet")
+	p.h.emit(r, "SignRet", func(e verifsupport.Ev) {
+		e["err"] = fail
 		e["zero"] = zero
+		e["req"] = sorted(read())
+		e["data"] = c01DataEv(uint64(slot), uint64(sourceEpoch), uint64(targetEpoch), root)
 	})
 	if fail {
 		return nil, errors.New("scripted signer failure")
@@ -446,27 +496,36 @@ func (p *c01Submitter) SubmitAttestations(ctx context.Context, attestations []*p
 	p.h.enter(r, "Submit")
 	st := r.script.submit
 	fail := st != nil && st.Err
-	atts := make([]verifsupport.Ev, 0, len(attestations))
-	for _, a := range attestations {
-		if a == nil || a.Data == nil || a.Data.Source == nil || a.Data.Target == nil {
-			atts = append(atts, verifsupport.Ev{"index": 0, "size": 0, "bits": []int{}, "data": c01DataEv(0, 0, 0, 0), "sig": c01SigEv(phase0.BLSSignature{})})
-			continue
+	// the attestations as they read now
+	read := func() []verifsupport.Ev {
+		atts := make([]verifsupport.Ev, 0, len(attestations))
+		for _, a := range attestations {
+			if a == nil || a.Data == nil || a.Data.Source == nil || a.Data.Target == nil {
+				atts = append(atts, verifsupport.Ev{"index": 0, "size": 0, "bits": []int{}, "data": c01DataEv(0, 0, 0, 0), "sig": c01SigEv(phase0.BLSSignature{})})
+				continue
+			}
+			bits := a.AggregationBits.BitIndices()
+			if bits == nil {
+				bits = []int{}
+			}
+			atts = append(atts, verifsupport.Ev{
+				"index": uint64(a.Data.Index),
+				"size":  a.AggregationBits.Len(),
+				"bits":  bits,
+				"data":  c01DataEv(uint64(a.Data.Slot), uint64(a.Data.Source.Epoch), uint64(a.Data.Target.Epoch), c01RootID(a.Data.BeaconBlockRoot, a.Data.Source.Root, a.Data.Target.Root)),
+				"sig":   c01SigEv(a.Signature),
+			})
 		}
-		bits := a.AggregationBits.BitIndices()
-		if bits == nil {
-			bits = []int{}
-		}
-		atts = append(atts, verifsupport.Ev{
-			"index": uint64(a.Data.Index),
-			"size":  a.AggregationBits.Len(),
-			"bits":  bits,
-			"data":  c01DataEv(uint64(a.Data.Slot), uint64(a.Data.Source.Epoch), uint64(a.Data.Target.Epoch), c01RootID(a.Data.BeaconBlockRoot, a.Data.Source.Root, a.Data.Target.Root)),
-			"sig":   c01SigEv(a.Signature),
-		})
+		return atts
 	}
 	p.h.emit(r, "Submit", func(e verifsupport.Ev) {
+		e["atts"] = read()
+	})
+	// inside the submitter
+	p.h.enter(r, "SubmitRet")
+	p.h.emit(r, "SubmitRet", func(e verifsupport.Ev) {
 		e["err"] = fail
-		e["atts"] = atts
+		e["atts"] = read()
 	})
 	if fail {
 		return errors.New("scripted submitter failure")
@@ -565,7 +624,8 @@ func c01BuildDuty(t *testing.T, h *c01Harness, d *c01Duty, merge bool) (*atteste
 	return duty, d
 }
 
-func (h *c01Harness) wait(r *c01Run) {
+// wait for run r to reach its next gate or to return; false = the watchdog gave up (Hung recorded).
+func (h *c01Harness) wait(r *c01Run) bool {
 	select {
 	case k := <-r.arrive:
 		if k == "return" {
@@ -574,20 +634,35 @@ func (h *c01Harness) wait(r *c01Run) {
 		} else {
 			r.parked = true
 		}
-	case <-time.After(60 * time.Second):
-		h.t.Fatalf("scenario %d run %d: no progress (driver stuck)", h.sc, r.id)
+		return true
+	case <-time.After(c01Patience):
+		h.hung(r)
+		return false
 	}
 }
 
-func (h *c01Harness) advance(r *c01Run) {
+// hung records that run r made no progress and abandons the instance (its goroutines stay where
+// they are; nothing they do later is recorded).
+func (h *c01Harness) hung(r *c01Run) {
+	h.tr.Locked(func() verifsupport.Ev {
+		if h.dead {
+			return nil
+		}
+		h.dead = true
+		c01HungSeen++
+		return verifsupport.Ev{"sc": h.sc, "ev": "Hung", "run": r.id, "after_ms": c01Patience.Milliseconds()}
+	})
+}
+
+func (h *c01Harness) advance(r *c01Run) bool {
 	if r.returned {
-		return
+		return true
 	}
 	if r.parked {
 		r.parked = false
 		r.release <- struct{}{}
 	}
-	h.wait(r)
+	return h.wait(r)
 }
 
 func (h *c01Harness) start(r *c01Run, duty *attester.Duty, logged *c01Duty, merged bool, begin chan struct{}, wg *sync.WaitGroup) {
@@ -600,11 +675,19 @@ func (h *c01Harness) start(r *c01Run, duty *attester.Duty, logged *c01Duty, merg
 			e["duty"] = verifsupport.Ev{"slot": logged.Slot, "vals": logged.Vals, "comm": logged.Comm, "pos": logged.Pos, "sizes": logged.Sizes}
 			e["merged"] = merged
 		})
-		atts, err := h.s.Attest(ctx, duty)
-		h.emit(r, "Return", func(e verifsupport.Ev) {
-			e["err"] = err != nil
-			e["n"] = len(atts)
-		})
+		func() {
+			// a panic inside Attest is an event of its own (no action of the specification), not a dead driver
+			defer func() {
+				if x := recover(); x != nil {
+					h.emit(r, "Crash", func(e verifsupport.Ev) { e["what"] = fmt.Sprint(x) })
+				}
+			}()
+			atts, err := h.s.Attest(ctx, duty)
+			h.emit(r, "Return", func(e verifsupport.Ev) {
+				e["err"] = err != nil
+				e["n"] = len(atts)
+			})
+		}()
 		if h.gated {
 			r.arrive <- "return"
 		}
@@ -624,6 +707,10 @@ func c01RunScenario(t *testing.T, tr *verifsupport.Trace, sc *c01Scenario) {
 	}
 	h := c01NewHarness(t, tr, sc, spe)
 	tr.Emit(verifsupport.Ev{"sc": sc.Sc, "ev": "Reset", "spe": spe, "mode": sc.Mode, "strategy": sc.Strategy})
+	if c01HungSeen >= c01HungBudget {
+		t.Logf("scenario %d not run: %d scenarios of this batch hung already", sc.Sc, c01HungSeen)
+		return
+	}
 
 	// the per-run scripts are known up front; the steps only say when each call is let through
 	order := make([]*c01Run, 0)
@@ -650,9 +737,11 @@ func c01RunScenario(t *testing.T, tr *verifsupport.Trace, sc *c01Scenario) {
 			r.script.fetch = st
 		case "Accounts":
 			r.script.accounts = st
-		case "Sign":
+		case "Sign", "Submit":
+			// the call is let in; the reply comes with SignRet / SubmitRet
+		case "SignRet":
 			r.script.sign = st
-		case "Submit":
+		case "SubmitRet":
 			r.script.submit = st
 		default:
 			t.Fatalf("unknown step %q", st.Ev)
@@ -672,8 +761,8 @@ func c01RunScenario(t *testing.T, tr *verifsupport.Trace, sc *c01Scenario) {
 		go func() { wg.Wait(); close(done) }()
 		select {
 		case <-done:
-		case <-time.After(120 * time.Second):
-			t.Fatalf("scenario %d: free-running runs did not finish", sc.Sc)
+		case <-time.After(2 * c01Patience):
+			h.hung(&c01Run{id: 0})
 		}
 		return
 	}
@@ -687,15 +776,21 @@ func c01RunScenario(t *testing.T, tr *verifsupport.Trace, sc *c01Scenario) {
 		if st.Ev == "Deliver" {
 			duty, logged := c01BuildDuty(t, h, r.duty, sc.Merge)
 			h.start(r, duty, logged, sc.Merge, nil, nil)
-			h.wait(r)
+			if !h.wait(r) {
+				return
+			}
 			continue
 		}
-		h.advance(r)
+		if !h.advance(r) {
+			return
+		}
 	}
 	// let every unfinished run complete (default answers where the scenario has none)
 	for _, r := range order {
 		for !r.returned {
-			h.advance(r)
+			if !h.advance(r) {
+				return
+			}
 		}
 	}
 }
